@@ -14,8 +14,9 @@
    records, in order, under the table its declarations build; with bundles
    (C06_document_bundles): each bundle's frame, declarations and record lines, one level
    deeper, are read as the bundle under the URI its identifier denotes with the bundle's own
-   declarations in scope, after the document's records.  Not covered (partial): containers
-   without records, names the reader's table does not resolve (findings C06-F1..F3). *)
+   declarations in scope, after the document's records; containers may hold no declaration
+   and no record (C06_empty_containers).  Not covered (partial): names the reader's table
+   does not resolve (findings C06-F1..F3). *)
 From Coq Require Import String Ascii List ZArith.
 From Prov Require Import Str Sexp Spec Nsm Values Record World Provn ProvnSpec ProvnProofs IsoProofs SpecProofs ProvnSpecProofs ProvnRecProofs ProvnDocProofs ProvnBundleProofs.
 Import ListNotations.
@@ -225,22 +226,22 @@ Proof. exact provn_document_applies. Qed.
    the document's table, to pb_uri; the bundle's records meet rec_spec_ok under that table. *)
 Theorem C06_document_bundles_text : forall ds rs css bs,
   let t := fold_left decl_apply ds builtin_ptable in
-  Forall decl_good ds -> Forall2 (rec_spec_ok t) rs css -> rs <> [] -> Forall (bundle_ok t) bs ->
+  Forall decl_good ds -> Forall2 (rec_spec_ok t) rs css -> Forall (bundle_ok t) bs ->
   ProvnSpec.read (doc_text_b ds rs bs)
   = Some (L (A "content" :: L (A "bundle" :: A "" :: conts rs css) :: map bundle_cont bs)).
 Proof. exact provn_document_bundles. Qed.
 Print Assumptions C06_document_bundles_text.
 
-(* the printer's text is that text, for every document whose containers hold at least one record *)
+(* the printer's text is that text, for every document (containers may be empty) *)
 Theorem C06_printer_text_bundles : forall d pbs,
-  brecs (dmain d) <> [] -> Forall2 (fun kb pb => pb_matches (snd kb) pb) (dbundles d) pbs ->
+  Forall2 (fun kb pb => pb_matches (snd kb) pb) (dbundles d) pbs ->
   doc_provn d = doc_text_b (decls_of (bns (dmain d))) (brecs (dmain d)) pbs.
 Proof. exact doc_provn_text_b. Qed.
 
 Theorem C06_document_bundles : forall d css pbs,
   let ds := decls_of (bns (dmain d)) in
   let t := fold_left decl_apply ds builtin_ptable in
-  brecs (dmain d) <> [] -> Forall2 (fun kb pb => pb_matches (snd kb) pb) (dbundles d) pbs ->
+  Forall2 (fun kb pb => pb_matches (snd kb) pb) (dbundles d) pbs ->
   Forall decl_good ds -> Forall2 (rec_spec_ok t) (brecs (dmain d)) css -> Forall (bundle_ok t) pbs ->
   ProvnSpec.read (doc_provn d)
   = Some (L (A "content" :: L (A "bundle" :: A "" :: conts (brecs (dmain d)) css) :: map bundle_cont pbs)).
@@ -258,3 +259,9 @@ Example C06_document_bundles_applies :
                       L [A (spec_prov_uri ++ "type"); L [A "qn"; A "http://e/T"]]]]];
              L [A "bundle"; A "http://e/b"; L [A "rec"; A (spec_prov_uri ++ "Agent"); A "http://e/ag"; L []]]]).
 Proof. exact provn_document_bundles_applies. Qed.
+
+(* every container may be empty *)
+Example C06_empty_containers :
+  ProvnSpec.read (doc_provn (mkD (mkB None pd_m [] []) [("http://e/b", mkB (Some (p_q "b")) nsm_init [] [])]))
+  = Some (L [A "content"; L [A "bundle"; A ""]; L [A "bundle"; A "http://e/b"]]).
+Proof. exact provn_empty_containers. Qed.
